@@ -15,6 +15,7 @@ func init() {
 	vrt.Register("C07_truthiness", Truthiness)
 	vrt.Register("C07_chain", Chain)
 	vrt.Register("C07_failed_condition", FailedCondition)
+	vrt.Register("C07_falsy_shadows_truthy", FalsyShadowsTruthy)
 }
 
 type T struct{ N int }
@@ -262,5 +263,52 @@ func FailedCondition() {
 	vrt.Note("got", got)
 	vrt.Assert(err == nil, "a tolerated unknown identifier in a condition renders")
 	vrt.Assert(got == want, "after a condition that failed on an unknown identifier, later conditions see the caller's values")
+	vrt.Cover("done")
+}
+
+// "the same truth value wherever it is tested": a falsy value bound in an inner
+// scope (parameter, loop variable, partial data, let) is falsy there also when an
+// outer scope binds the same name to something truthy
+func FalsyShadowsTruthy() {
+	outer := vrt.Int() // 0 included: truthy
+	ctx := plush.NewContext()
+	ctx.Set("v", outer)
+	var np *int
+	ctx.Set("np", np)
+	ctx.Set("items", []interface{}{nil, "", false})
+	ctx.Set("partialFeeder", func(string) (string, error) { return "TEST", nil })
+	falsies := []string{"nil", "\"\"", "false", "np", "raw(\"\")", "nope"}
+	fv := falsies[vrt.Choice(len(falsies))]
+	tests := []string{
+		"<%= if (v) { %>T<% } else { %>F<% } %>",
+		"<%= if (!v) { %>F<% } else { %>T<% } %>",
+		"<%= if (v && true) { %>T<% } else { %>F<% } %>",
+		"<%= if (v || false) { %>T<% } else { %>F<% } %>",
+		"<%= if (false) { %>x<% } else if (v) { %>T<% } else { %>F<% } %>",
+	}
+	test := tests[vrt.Choice(len(tests))]
+	var in, want string
+	switch vrt.Choice(5) {
+	case 0: // parameter
+		vrt.Assume(fv != "nope")
+		in, want = "<% let f = fn(v) { %>"+test+"<% } %><%= f("+fv+") %>|"+tests[0], "F|T"
+	case 1: // loop variable over falsy elements
+		in, want = "<%= for (v) in items { %>"+test+"<% } %>|"+tests[0], "FFF|T"
+	case 2: // data of a partial
+		vrt.Assume(fv != "nope")
+		ctx.Set("partialFeeder", func(string) (string, error) { return test, nil })
+		in, want = "<%= partial(\"p\", {v: "+fv+"}) %>|"+tests[0], "F|T"
+	case 3: // let in a loop body
+		vrt.Assume(fv != "nope")
+		in, want = "<%= for (i) in [1] { %><% let v = "+fv+" %>"+test+"<% } %>|"+tests[0], "F|T"
+	default: // data of contentOf
+		vrt.Assume(fv != "nope")
+		in, want = "<% contentFor(\"c\") { %>"+test+"<% } %><%= contentOf(\"c\", {v: "+fv+"}) %>|"+tests[0], "F|T"
+	}
+	vrt.Note("input", in)
+	got, err := plush.Render(in, ctx)
+	vrt.Note("got", got)
+	vrt.Assert(err == nil, "the program renders")
+	vrt.Assert(got == want, "a falsy value bound in an inner scope is falsy there, whatever an outer scope binds to the name")
 	vrt.Cover("done")
 }
